@@ -112,12 +112,15 @@ def pair_st(draw, tier):
         # port sets equal or one port apart at an end of a run / of the port space, in every spelling
         top, bottom = draw(G.port_focus(top, bottom, platform))
     if draw(st.sampled_from(range(8))) == 0:
-        # one network on top, a group of several members below it (an outsider at any position decides)
-        from checks.c13 import group_under_net
+        # one network (or one non-contiguous wildcard) on top, a group of several members below it (an outsider at any
+        # position - also between two insiders - decides)
+        from checks.c13 import group_under_net, group_under_wild
 
-        net, grp = draw(group_under_net())
+        net, grp = draw(st.one_of(group_under_net(), group_under_wild()))
         side = draw(st.sampled_from(["src", "dst"]))
-        top[side] = G.native_addr(G.addr_pair(net), platform)
+        top[side] = G.native_addr(G.addr_pair(net), platform) if R.is_contiguous(net["w"]) else dict(net)
+        if draw(st.booleans()):
+            bottom = dict(top)  # everything else equal: this address decides alone
         bottom[side] = grp
         bottom["action"] = top["action"]
     elif draw(st.sampled_from(range(8))) == 0:
